@@ -443,6 +443,11 @@ def judge(c, t, p, branch, sel, amb, res, entry, ext_types, live=None):
     if amb:
         c.count("ambiguous_pair_directory_without_index_plus_sibling_html (not judged)")
         return
+    if "#" in p and "?" in p and p.index("#") < p.index("?"):
+        # a '#' before the '?': by RFC 3986 the fragment starts at the '#' and swallows the '?'; the url library of the server
+        # cuts at the '?' first. No client sends a fragment at all - the corner is recorded, not judged (C01 does scan it)
+        c.count("target_with_hash_before_question_mark (not judged)")
+        return
     if branch == "file" and (entry != "legacy" or True):
         pass
     # the legacy entry point does not serve directories / .html fallbacks / queries: only its common domain is judged
